@@ -189,6 +189,16 @@ def gen_options(repo, outdir):
         elif t == 'token_pos_e':
             assume.append('__CPROVER_assume(((int)optv_%s & ~0x3f) == 0);' % o['name'])
     cpp.append('}')
+    # value aliases IARF_x / LE_x / TP_x of the generated src/option_enum.h (make_option_enum.py: prefix from the
+    # `// <PREFIX>` marker on the enum's first line), regenerated here from src/option.h
+    with open(os.path.join(repo, 'src/option.h')) as f:
+        oh = f.read()
+    for mo in re.finditer(r'enum class (\w+) // <(\w+)>\s*\{(.*?)\};', oh, re.S):
+        ename, prefix, body = mo.group(1), mo.group(2), slicer.mask(mo.group(3))
+        if ename not in ('iarf_e', 'line_end_e', 'token_pos_e'):
+            continue
+        for en in re.findall(r'^\s*(\w+)\s*(?:=[^,]*)?,?\s*$', body, re.M):
+            cpp.append('static const %s %s_%s = %s::%s;' % (ename, prefix, en, ename, en))
     cpp += ns + ['}']
     cpp.append('// the property\'s "in-range configuration" quantifier: every option value is any value of its documented range')
     cpp.append('static inline void verif_havoc_options() {')
@@ -204,9 +214,20 @@ def gen_options(repo, outdir):
             cpp.append('  optv_%s = (%s)nondet_%s();' % (o['name'], cppT, 'uint' if o['type'] == 'unsigned' else 'int'))
     cpp += ['  ' + a for a in assume]
     cpp.append('}')
+    # C16-K4 / C20-K3: the set B of blank-line *count* options, taken from the documentation in options.h (not from
+    # too_big_for_nl_max.cpp): unsigned nl_* options documented as "the number of newlines / blank lines" or
+    # "the minimum number of ...", but not the caps ("maximum ...")
+    B = [o['name'] for o in opts if o['type'] == 'unsigned' and o['name'].startswith('nl_') and o['name'] != 'nl_max'
+         and re.search(r'(number of newlines|number of blank lines|number of consecutive newlines)', o['doc'], re.I)
+         and not re.match(r'\s*(\(\w+\)\s*)?The maximum', o['doc']) and not re.search(r'[Mm]ax(imum)? (number|code)', o['doc'].split('.')[0])]
+    c.append('#define NL_COUNT_OPTIONS_N %d' % len(B))
+    c.append('#define NL_COUNT_ENSURES \\\n' + ' \\\n'.join('__CPROVER_ensures(optv_%s <= optv_nl_max) /* %s */' % (n, n) for n in B))
+    c.append('#define NL_COUNT_ALL_OK (' + ' && '.join('optv_%s <= optv_nl_max' % n for n in B) + ')')
     cpp.append('#endif')
     c.append('#endif')
     os.makedirs(outdir, exist_ok=True)
+    with open(os.path.join(outdir, 'nl_count_options.txt'), 'w') as f:
+        f.write('\n'.join(B) + '\n')
     with open(os.path.join(outdir, 'options_gen.h'), 'w') as f:
         f.write('\n'.join(cpp) + '\n')
     with open(os.path.join(outdir, 'options_c.h'), 'w') as f:
@@ -234,3 +255,56 @@ def gen_consts(repo, outdir):
     out.append('#endif')
     with open(os.path.join(outdir, 'repo_consts.h'), 'w') as f:
         f.write('\n'.join(out) + '\n')
+
+
+def gen_space(repo, outdir, opts=None):
+    """Headers for the do_space proof: PCF_* constants (src/pcf_flags.h), rule ids of every option name,
+    and the C function mapping a rule id to the configured value of that option."""
+    opts = opts or parse_options(repo)
+    with open(os.path.join(repo, 'src/pcf_flags.h')) as f:
+        t = f.read()
+    cpp = ['// generated from src/pcf_flags.h and src/options.h', '#ifndef SPACE_GEN_H', '#define SPACE_GEN_H']
+    n = 0
+    for mo in re.finditer(r'^\s*(PCF_\w+)\s*=\s*(pcf_bit\((\d+)\)|0ULL|0x[0-9a-fA-F]+ULL)', t, re.M):
+        v = ('(1UL << %s)' % mo.group(3)) if mo.group(3) else mo.group(2).replace('ULL', 'UL')
+        cpp.append('static const unsigned long %s = %s;' % (mo.group(1), v))
+        n += 1
+    if n < 30:
+        raise slicer.SliceError('pcf_flags.h: only %d flags parsed' % n)
+    iarf = [o['name'] for o in opts if o['type'] == 'iarf_e']
+    allnames = [o['name'] for o in opts]
+    cpp.append('enum verif_rule_id { RULE_NONE = 0,')
+    for i, nme in enumerate(allnames):
+        cpp.append('  RULE_%s = %d,' % (nme, i + 1))
+    cpp.append('};')
+    cpp.append('#endif')
+    with open(os.path.join(outdir, 'space_gen.h'), 'w') as f:
+        f.write('\n'.join(cpp) + '\n')
+    c = ['// generated: rule id -> configured value of the IARF option of that name (-1: not an IARF option)',
+         '#ifndef SPACE_C_H', '#define SPACE_C_H', '#include "options_c.h"',
+         'int rule_value(int id) {', '  switch (id) {']
+    for i, nme in enumerate(allnames):
+        if nme in iarf:
+            c.append('  case %d: return optv_%s; /* %s */' % (i + 1, nme, nme))
+    c += ['  default: return -1;', '  }', '}']
+    for i, nme in enumerate(allnames):
+        c.append('#define RULE_%s %d' % (nme, i + 1))
+    # one attribution clause per IARF option, so that a failing site names its option; MAY_FORCE_ADD / MAY_WEAKEN_REMOVE
+    # are defined by the contract file (the exceptions the property allows)
+    cl = []
+    for i, nme in enumerate(allnames):
+        if nme in iarf:
+            cl.append('__CPROVER_ensures(g_rule_id == %d ==> (__CPROVER_return_value == optv_%s'
+                      ' || (MAY_FORCE_ADD(%d) && __CPROVER_return_value == (optv_%s | 1))'
+                      ' || (MAY_WEAKEN_REMOVE(%d) && optv_%s == 2 && __CPROVER_return_value == 0))) /* %s */' % (i + 1, nme, i + 1, nme, i + 1, nme, nme))
+    # the same clauses restricted to states outside every recorded known deviation (KNOWN_DEV(id), defined by the
+    # contract file): a *different* violation of a rule that has a known finding still fails one of these
+    for i, nme in enumerate(allnames):
+        if nme in iarf:
+            cl.append('__CPROVER_ensures((g_rule_id == %d && HAS_KNOWN_DEV(%d) && !KNOWN_DEV(%d)) ==> __CPROVER_return_value == optv_%s) /* strict: %s */' % (i + 1, i + 1, i + 1, nme, nme))
+    c.append('#define ATTRIBUTION_ENSURES \\\n' + ' \\\n'.join(cl))
+    c.append('#define ALL_IARF_IN_RANGE (' + ' && '.join('OPT_RANGE_%s' % nme for nme in iarf) + ')')
+    c.append('#endif')
+    with open(os.path.join(outdir, 'space_c.h'), 'w') as f:
+        f.write('\n'.join(c) + '\n')
+    return allnames
